@@ -20,7 +20,7 @@ ASSUMPTIONS = [
 ]
 BUDGET = {
     "quick": {"examples": 1500, "wall_s": 60, "shards": 4},
-    "thorough": {"examples": 12000, "wall_s": 900, "shards": 16},
+    "thorough": {"examples": 30000, "wall_s": 1500, "shards": 16},
 }
 
 EXTRA_STRATEGIES = poolprops.real_extra(4, 64)
